@@ -190,7 +190,7 @@ PROPS = {
     "C10": {"module": "Asts.Props.C10", "assumptions": ["C10_revs: names are unique in the revision store (one API namespace; the monitor looks a written revision up by name)", "C10_pods: pod names are unique; the ordinal recorded for a pod is the one its name shows; every pod the set may claim (member, matching, not controlled by another owner) has its canonical name S-<ordinal> -- without it the identity fix of a zero-padded claimed pod (web-03) addresses its Update to web-3, which may be another owner's pod (upstream quirk, example exQuirk in Props/C10.lean; the run-time monitor carries the same precondition)", "'objects read from caches are left unmodified' is Go aliasing: monitored by the engine (C10.cache: deep comparison of every cached object before / after each sync), not proved"], "runs": [sy(proj=proj_sync_owner)], "rule": SY_RULE},
     "C11": {"module": "Asts.Props.C11", "extra_modules": ["Asts.Props.Glue2"], "assumptions": ["C11_deleting (store half): names are unique in the revision store (the monitor looks every input revision up by name; example exDup in Props/C11.lean)", "'resumes and converges to the same result as if it had never been paused': a paused round changes nothing in the API state (paused_round), so un-pausing resumes from the same state and C02 applies"], "runs": [sy(proj=proj_sync_c11)], "rule": SY_RULE},
     "C13": {"module": "Asts.Props.C13", "assumptions": ["headline C13_monitor_true_on_model: store names distinct, pod names distinct, no colon in a store or pod name (Kubernetes names never contain one)", "revisionHistoryLimit present (the CRD defaults it; nil is the modelled panic of truncateHistory, unreachable for admitted objects)"], "runs": [sy(proj=proj_sync_history)], "rule": SY_RULE},
-    "C03": {"module": "Asts.Props.C03", "extra_modules": ["Asts.Props.Glue"], "runs": [rc(proj=proj_deletes), sy(quick=5000, thorough=60000, proj=proj_sync_pods)], "rule": RC_RULE + SY_L1},
+    "C03": {"module": "Asts.Props.C03", "extra_modules": ["Asts.Props.Glue", "Asts.Props.EditAlgebra"], "runs": [rc(proj=proj_deletes), sy(quick=5000, thorough=60000, proj=proj_sync_pods)], "rule": RC_RULE + SY_L1},
     "C04": {"module": "Asts.Props.C04", "extra_modules": ["Asts.Props.Glue2"], "runs": [rc(proj=proj_creates), sy(quick=5000, thorough=60000, proj=proj_sync_pods)], "rule": RC_RULE + SY_L1},
     "C05": {"module": "Asts.Props.C05", "extra_modules": ["Asts.Props.Glue"], "runs": [rc(proj=proj_create_delete), sy(quick=5000, thorough=60000, proj=proj_sync_pods)], "rule": RC_RULE + SY_L1},
     "C07": {"module": "Asts.Props.C07", "runs": [rc(proj=proj_create_delete), sy(quick=5000, thorough=60000, proj=proj_sync_pods)], "rule": RC_RULE + SY_L1},
@@ -211,6 +211,7 @@ PROPS = {
                             "memory exhaustion (a replica count near 2^31 makes the controller allocate a slice of that size) is a runtime limit, not a panic of the modelled logic"]},
     "C01": {
         "module": "Asts.Props.C01",
+        "extra_modules": ["Asts.Props.EditAlgebra"],
         "runs": [
             {"engine": "ordinals", "quick": 30000, "thorough": 200000, "enum_thorough": ["all"], "proj": proj_all},
             rc(quick=20000, thorough=200000, proj=proj_creates),
